@@ -205,6 +205,14 @@ func date(y int, m time.Month, d int) time.Time { return time.Date(y, m, d, 0, 0
 
 func (g *Gen) batchDates(now time.Time) (time.Time, time.Time) {
 	var start time.Time
+	if bs := g.W.Cur.Batches; len(bs) > 0 && g.R.Chance(0.12) {
+		// the same start date as an existing batch: ties in every ordering by start date
+		s0 := TsTime(bs[g.R.Intn(len(bs))].StartDate)
+		if s0.Year() >= 1 && s0.Year() < 9990 {
+			e0 := s0.AddDate(0, g.R.Range(0, 11), g.R.Range(1, 27))
+			return s0.UTC(), e0.UTC()
+		}
+	}
 	switch g.R.Weighted([]float64{5, 1, 1, 1, 2, 1, 0.7}) {
 	case 6: // the far ends of the valid timestamp range (years 0001 … 9999)
 		start = date(Pick(g.R, []int{1, 9, 99, 100, 987, 999, 1000, 9998}), time.Month(g.R.Range(1, 12)), g.R.Range(1, 28))
